@@ -10,6 +10,7 @@ import (
 	"go/constant"
 	"go/token"
 	"go/types"
+	"golang.org/x/tools/go/packages"
 	"sort"
 	"strings"
 )
@@ -193,7 +194,12 @@ func checkKeyedStores(r *Run) {
 // emitted before: after a failed emission the next one starts with the leftovers. Package variables of the emitter are
 // allowed only as tables that no function writes.
 func checkEmitterPackageState(r *Run, rule string) {
-	p := r.MustPkg("cypher/models/cypher/format")
+	checkNoPackageState(r, r.MustPkg("cypher/models/cypher/format"), rule, "the emitter", "what one emission leaves there the next one finds — after an emission that failed part-way the following query is written behind the leftovers")
+}
+
+// checkNoPackageState: the functions of a package keep no state at package level — sync.Pool/Map/atomics that they use,
+// or plain variables that they assign. Tables that no function writes are fine.
+func checkNoPackageState(r *Run, p *packages.Package, rule, who, consequence string, onlyReceivers ...string) {
 	info := p.TypesInfo
 	vars := map[types.Object]*ast.ValueSpec{}
 	for _, f := range p.Syntax {
@@ -227,6 +233,19 @@ func checkEmitterPackageState(r *Run, rule string) {
 			if !ok || fd.Body == nil {
 				continue
 			}
+			if len(onlyReceivers) > 0 {
+				match := false
+				if fd.Recv != nil && len(fd.Recv.List) == 1 {
+					for _, rn := range onlyReceivers {
+						if recvTypeName(fd.Recv.List[0].Type) == rn {
+							match = true
+						}
+					}
+				}
+				if !match {
+					continue
+				}
+			}
 			ast.Inspect(fd.Body, func(x ast.Node) bool {
 				switch t := x.(type) {
 				case *ast.Ident:
@@ -253,17 +272,17 @@ func checkEmitterPackageState(r *Run, rule string) {
 	n := 0
 	for obj := range vars {
 		n++
-		construct := "format." + obj.Name()
+		construct := p.Name + "." + obj.Name()
 		switch {
 		case syncTyped(obj.Type()) && used[obj]:
-			r.Fail(rule, construct, obj.Pos(), "the emitter keeps %s (%s) at package level and its functions use it: what one emission leaves there the next one finds — after an emission that failed part-way the following query is written behind the leftovers", obj.Name(), obj.Type())
+			r.Fail(rule, construct, obj.Pos(), "%s keeps %s (%s) at package level and its functions use it: %s", who, obj.Name(), obj.Type(), consequence)
 		case written[obj] != token.NoPos:
-			r.Fail(rule, construct, written[obj], "the package variable %s is written by the emitter's functions: the emitted text depends on earlier emissions", obj.Name())
+			r.Fail(rule, construct, written[obj], "the package variable %s is written by the functions of %s: %s", obj.Name(), who, consequence)
 		default:
 			r.Pass(rule, construct, obj.Pos(), "a table no function writes")
 		}
 	}
-	r.Ob(rule, "format:scanned", token.NoPos, true, "%d package variables of the emitter examined", n)
+	r.Ob(rule, p.Name+":scanned", token.NoPos, true, "%d package variables of %s examined", n, who)
 }
 
 // checkNameCodecSymmetry (R10): label and relationship type names pass from text to model (graph.StringKind in the front
